@@ -111,6 +111,11 @@ $(foreach p,$(STD_PROPS),$(eval $(call STD_RULES,$(p))))
 $(BUILD)/props/C19: $(BUILD)/props/C19.o $(FWBUILD)/fw_main.o $(BUILD)/cxx/reproc.o $(BUILD)/lib-san/error.posix.o
 	$(CXX) $(SAN) -o $@ $^ -lrapidcheck -lpthread
 
+# C04 (Windows half) on the same stub
+$(BUILD)/props/C04win: $(BUILD)/props/C04win.o $(FWBUILD)/fw_main.o $(addprefix $(BUILD)/win/,$(addsuffix .o,process.windows utf.windows handle.windows)) $(BUILD)/win/winstub.o
+	$(CXX) $(SAN) -o $@ $^ -lrapidcheck -lpthread
+$(BUILD)/props/C04win.o: HCXXFLAGS += -I$(SRC)/winstub
+
 # C18: Windows sources on stub headers
 $(BUILD)/props/C18: $(BUILD)/props/C18.o $(FWBUILD)/fw_main.o $(addprefix $(BUILD)/win/,$(addsuffix .o,$(WINSRC))) $(BUILD)/win/winstub.o
 	$(CXX) $(SAN) -o $@ $^ -lrapidcheck -lpthread
@@ -139,7 +144,7 @@ $(BUILD)/props/C20: $(BUILD)/props/C20.o $(FWBUILD)/fw_main_tsan.o $(FWBUILD)/vs
 prop-%: $(BUILD)/props/%
 	@true
 
-ALL_PROPS := $(patsubst $(SRC)/props/%.cpp,%,$(wildcard $(SRC)/props/C??.cpp))
+ALL_PROPS := $(patsubst $(SRC)/props/%.cpp,%,$(wildcard $(SRC)/props/C??.cpp)) C04win C04.rel C05.rel C06.rel C12.rel
 all: $(addprefix $(BUILD)/props/,$(ALL_PROPS)) $(FWBUILD)/puppet $(BUILD)/fuzz/C18_fuzz
 
 clean:
